@@ -192,6 +192,30 @@ class Runner:
         return len(jobs)
 
     # -- generated search -----------------------------------------------------
+    def spawn(self, part, binkey, w, gen):
+        """Start worker w of a part; gen > 0 is a restart after a crash in a listed crash class (fresh seed)."""
+        tier = self.tier
+        binary = self.bins[binkey]
+        pname = part.get("part", part["name"])     # harness-side part name (several bins may share it)
+        workers = part["workers"][tier]
+        tag = "%s.%d" % (part["name"], w) + (".r%d" % gen if gen else "")
+        out = os.path.join(self.work, tag + ".out.json")
+        scratch = os.path.join(self.work, tag + ".scratch.json")
+        fail = os.path.join(self.work, tag + ".fail.json")
+        env = dict(self.env)
+        if part.get("kind") == "enum":
+            cmd = [binary, "--enumerate", "--part", pname, "--shard", "%d/%d" % (w, workers),
+                   "--out", out, "--fail", fail]
+        else:
+            s = seed_for(self.seed, part["name"], w + 1000 * gen)
+            env["RC_PARAMS"] = "seed=%d max_success=%d max_size=%d max_discard_ratio=1000" % (
+                s, part["cases"][tier], part.get("max_size", 100))
+            cmd = [binary, "--run", "--part", pname, "--out", out, "--scratch", scratch, "--fail", fail]
+        logf = open(os.path.join(self.work, tag + ".log"), "w")
+        p = subprocess.Popen(cmd, stdout=logf, stderr=subprocess.STDOUT, env=env)
+        return dict(p=p, part=part, tag=tag, out=out, scratch=scratch, fail=fail, binary=binary, binkey=binkey,
+                    log=logf.name, w=w, gen=gen)
+
     def run_parts(self):
         procs = []
         tier = self.tier
@@ -199,28 +223,11 @@ class Runner:
             if part.get("kind") == "fuzz":
                 continue
             binkey = part.get("bin", next(iter(self.bins)))
-            binary = self.bins[binkey]
-            pname = part.get("part", part["name"])     # harness-side part name (several bins may share it)
             workers = part["workers"][tier]
             if workers <= 0:
                 continue
             for w in range(workers):
-                tag = "%s.%d" % (part["name"], w)
-                out = os.path.join(self.work, tag + ".out.json")
-                scratch = os.path.join(self.work, tag + ".scratch.json")
-                fail = os.path.join(self.work, tag + ".fail.json")
-                env = dict(self.env)
-                if part.get("kind") == "enum":
-                    cmd = [binary, "--enumerate", "--part", pname, "--shard", "%d/%d" % (w, workers),
-                           "--out", out, "--fail", fail]
-                else:
-                    s = seed_for(self.seed, part["name"], w)
-                    env["RC_PARAMS"] = "seed=%d max_success=%d max_size=%d max_discard_ratio=1000" % (
-                        s, part["cases"][tier], part.get("max_size", 100))
-                    cmd = [binary, "--run", "--part", pname, "--out", out, "--scratch", scratch, "--fail", fail]
-                logf = open(os.path.join(self.work, tag + ".log"), "w")
-                p = subprocess.Popen(cmd, stdout=logf, stderr=subprocess.STDOUT, env=env)
-                procs.append(dict(p=p, part=part, tag=tag, out=out, scratch=scratch, fail=fail, binary=binary, binkey=binkey, log=logf.name))
+                procs.append(self.spawn(part, binkey, w, 0))
         budget = self.cfg.get("timeout", {}).get(tier, 900 if tier == "quick" else 7200)
         deadline = time.time() + budget
         hang_s = self.cfg.get("hang_s", 60)
@@ -251,6 +258,14 @@ class Runner:
                 pr["rc"] = rc
                 pending.remove(pr)
                 results.append(pr)
+                # a worker that died in a listed crash class is restarted with a fresh seed (at most 3 times), so the
+                # rest of its budget is still explored; the crash itself is counted in digest()
+                if isinstance(rc, int) and rc not in (0, 1, 3) and pr["part"].get("kind") != "enum" and pr["gen"] < 3 \
+                        and now < deadline and os.path.exists(pr["scratch"]) and os.path.getsize(pr["scratch"]) > 0:
+                    kid = self.triage_crash(pr, pr["scratch"])
+                    pr["kid"] = kid or ""
+                    if kid:
+                        pending.append(self.spawn(pr["part"], pr["binkey"], pr["w"], pr["gen"] + 1))
         return results
 
     def digest(self, results):
@@ -309,10 +324,11 @@ class Runner:
                     if "ERROR: AddressSanitizer" in line or "runtime error:" in line or "ThreadSanitizer" in line or "Assertion" in line:
                         sig = line.strip()[:300]
                         break
-                kid = self.triage_crash(pr, pr["scratch"])
+                kid = pr["kid"] if "kid" in pr else self.triage_crash(pr, pr["scratch"])
                 if kid:
                     agg["known"][kid] = agg["known"].get(kid, 0) + 1
-                    agg["inconclusive"].append("%s: stopped at a case in known crash class %s; its remaining budget was not explored" % (pr["tag"], kid))
+                    agg["inconclusive"].append("%s: stopped at a case in known crash class %s; %s" % (
+                        pr["tag"], kid, "restarted with a fresh seed" if "kid" in pr else "its remaining budget was not explored"))
                     continue
                 self.confirm(pr["binary"], pr["scratch"], sig, binkey=pr["binkey"])
             else:
